@@ -46,10 +46,10 @@ def run(ctx):
         bs = ctx.behaviours("cert", "Gen_DoubleSign", "Gen_DoubleSign.cfg",
                             constants=dict(SLOT if ctx.quick() else dict(SLOT, Bodies='{"x", "nil"}'),
                                            Mode='"log"', MaxOps=d, Depth=d), timeout=900)
-        wl = ctx.pick(10, 24)
+        wl = ctx.pick(10, 16)
         walks = ctx.behaviours("cert", "Gen_DoubleSign", "Gen_DoubleSign.cfg",
                                constants=dict(SMALL, Mode='"log"', MaxOps=wl, Depth=wl),
-                               simulate="num=%d" % ctx.pick(500, 8000), depth=wl + 2, seed=ctx.seed, timeout=900)
+                               simulate="num=%d" % ctx.pick(500, 4000), depth=wl + 2, seed=ctx.seed, timeout=900)
         items += [dict(t="beh", steps=b) for b in bs + walks]
         for b in (walks[:1] + bs[-1:]):
             ctx.sample([dict(op=s["op"], m=s["m"], ev=s["ev"]) for s in b][:6])
